@@ -1,0 +1,7 @@
+//go:build !verif
+
+package scheduler
+
+// verifPoint is a no-op unless the scheduler is built with the "verif"
+// build tag. See verif_on.go.
+func verifPoint(point, arg int) {}
